@@ -69,9 +69,6 @@ func vrfKnownC04(mode int, r *Recipient) {
 		vrf.Known("C04-empty-base", emptyBase)
 		vrf.Known("C04-dot-name", dotty)
 	}
-	if mode != 1 {
-		vrf.Known("C04-domain-case", vrfHasUpper(r.Domain) && strings.HasPrefix(r.Domain, "["))
-	}
 }
 
 // VerifC04FixedPoint: for every address NewRecipient accepts (what RCPT TO accepts after the
@@ -113,14 +110,10 @@ func VerifC04Case(mode int, n int) {
 	}
 	vrf.Cover("first-accepted")
 	if err2 != nil {
-		vrf.Known("C04-ipv6-tag-case", strings.Contains(a1, "@[IPv6:"))
 		vrf.Assert("case-acceptance-agrees", false)
 		return
 	}
 	vrf.Cover("both-accepted")
-	if mode != 1 {
-		vrf.Known("C04-domain-case", r1.Domain != r2.Domain && strings.HasPrefix(r1.Domain, "["))
-	}
 	vrf.Assert("case-same-mailbox", r1.Mailbox == r2.Mailbox)
 }
 
